@@ -105,6 +105,42 @@ theorem rolling_mem_row (w : Nat) (hw : 1 ≤ w) (f : List α → β) (rows : Li
   rw [List.getElem?_range (by omega)]
   rfl
 
+/-! ### the specification pinned by standard list notions; chunk / order independence -/
+
+/-- a sequence has no window iff it is shorter than the window -/
+theorem windows_eq_nil_iff (w : Nat) (hw : 1 ≤ w) (f : List α → β) (xs : List α) :
+    windows w f xs = [] ↔ xs.length < w := by
+  rw [← List.length_eq_zero_iff, windows_length]; omega
+
+/-- window 1 is the element-wise map -/
+theorem windows_one (f : List α → β) (xs : List α) : windows 1 f xs = xs.map (fun x => f [x]) := by
+  apply List.ext_getElem
+  · simp [windows]
+  · intro i h1 h2
+    simp only [windows, List.getElem_map, List.getElem_range]
+    have hi : i < xs.length := by simpa using h2
+    congr 1
+    rw [List.take_one, List.head?_drop, List.getElem?_eq_getElem hi]
+    rfl
+
+/-- the window at position `i` is `f` of letters `i .. i+w-1` -/
+theorem windows_getElem? (w : Nat) (f : List α → β) (xs : List α) (i : Nat) (hi : i + w ≤ xs.length) :
+    (windows w f xs)[i]? = some (f ((xs.drop i).take w)) := by
+  unfold windows
+  rw [List.getElem?_map, List.getElem?_range (by omega)]
+  rfl
+
+/-- **C13.rolling_chunks** — the result for a collection split anywhere between two rows is the
+concatenation of the results of the parts (no value depends on a neighbouring row or chunk) -/
+theorem rolling_chunks (w : Nat) (hw : 1 ≤ w) (f : List α → β) (rows1 rows2 : List (List α)) :
+    rolling w f (rows1 ++ rows2) = rolling w f rows1 ++ rolling w f rows2 := by
+  simp [rolling_rowlocal w hw, spec]
+
+/-- **C13.rolling_order** — re-ordering (here: reversing) the rows re-orders the results and changes nothing else -/
+theorem rolling_order (w : Nat) (hw : 1 ≤ w) (f : List α → β) (rows : List (List α)) :
+    rolling w f rows.reverse = (rolling w f rows).reverse := by
+  simp [rolling_rowlocal w hw, spec, List.map_reverse]
+
 /-! ### `mode="same"` -/
 
 /-- how many leading entries `row[s:] = 0` leaves untouched -/
@@ -170,6 +206,214 @@ theorem rollingSameOld_w1_unsound :
       [[false, false, false, false], [false, false]] ∧
     specSame 1 (fun (win : List Nat) => win == [2]) false [[1, 1, 2, 1], [2, 2]] =
       [[false, false, true, false], [true, true]] := by decide
+
+/-! ### regular-expression matchers -/
+
+theorem any_congr_mem {γ : Type} (l : List γ) (p q : γ → Bool) (h : ∀ a ∈ l, p a = q a) : l.any p = l.any q := by
+  induction l with
+  | nil => rfl
+  | cons x xs ih => simp only [List.any_cons, h x (by simp), ih (fun a ha => h a (by simp [ha]))]
+
+theorem maskedMatch_nil (win : List Nat) : maskedMatch [] win = (win.length == 0) := by
+  cases win <;> simp [maskedMatch]
+
+theorem maskedMatch_cons_nil (a : Option Nat) (alt : List (Option Nat)) : maskedMatch (a :: alt) [] = false := by
+  simp [maskedMatch]
+
+theorem maskedMatch_cons (a : Option Nat) (alt : List (Option Nat)) (c : Nat) (ws : List Nat) :
+    maskedMatch (a :: alt) (c :: ws) = ((a.isNone || a == some c) && maskedMatch alt ws) := by
+  simp only [maskedMatch, List.length_cons, List.zipWith_cons_cons, List.all_cons, id]
+  cases (a.isNone || a == some c) <;> cases h : (ws.length == alt.length) <;> simp_all
+
+theorem matchFixed_cons (e : Elem) (pat : List Elem) (c : Nat) (ws : List Nat) :
+    matchFixed (e :: pat) (c :: ws) = (e.ok c && matchFixed pat ws) := by
+  simp only [matchFixed, List.length_cons, List.zipWith_cons_cons, List.all_cons, id]
+  cases e.ok c <;> cases h : (ws.length == pat.length) <;> simp_all
+
+/-- **C13.expandClasses_sound** — the code's expansion of character classes into masked exact matchers,
+and the union it takes, accept exactly the windows that match the pattern position by position -/
+theorem expandClasses_sound (pat : List Elem) (win : List Nat) : fixedMatch pat win = matchFixed pat win := by
+  unfold fixedMatch
+  induction pat generalizing win with
+  | nil => simp [expandClasses, maskedMatch_nil, matchFixed]
+  | cons e rest ih =>
+    cases win with
+    | nil =>
+      have : matchFixed (e :: rest) [] = false := by simp [matchFixed]
+      rw [this]
+      cases e with
+      | any => simp [expandClasses, List.any_map, Function.comp_def, maskedMatch_cons_nil]
+      | oneOf cs => simp [expandClasses, List.any_flatMap, List.any_map, Function.comp_def, maskedMatch_cons_nil]
+    | cons c ws =>
+      rw [matchFixed_cons, ← ih ws]
+      cases e with
+      | any =>
+        simp [expandClasses, List.any_map, Function.comp_def, maskedMatch_cons, Elem.ok]
+      | oneOf cs =>
+        simp only [expandClasses, List.any_flatMap, List.any_map, Function.comp_def, maskedMatch_cons, Elem.ok,
+          Option.isNone_some, Bool.false_or]
+        induction cs with
+        | nil => simp
+        | cons x xs ihx =>
+          simp only [List.any_cons, List.contains_cons, ihx]
+          have hx : (some x == some c) = (c == x) := by
+            by_cases h : x = c
+            · subst h; simp
+            · have h' : ¬ c = x := fun e => h e.symm
+              simp [h, h']
+          rw [hx]
+          cases (c == x) <;> cases (xs.contains c) <;> simp [List.any_eq_false]
+
+theorem expandClasses_length (pat : List Elem) : ∀ alt ∈ expandClasses pat, alt.length = pat.length := by
+  induction pat with
+  | nil => simp [expandClasses]
+  | cons e rest ih =>
+    intro alt halt
+    cases e with
+    | any =>
+      simp only [expandClasses, List.mem_map] at halt
+      obtain ⟨a, ha, rfl⟩ := halt
+      simp [ih a ha]
+    | oneOf cs =>
+      simp only [expandClasses, List.mem_flatMap, List.mem_map] at halt
+      obtain ⟨c, _, a, ha, rfl⟩ := halt
+      simp [ih a ha]
+
+/-- **C13.fixedRegex_rowlocal** — `FixedLenRegexMatcher(...).rolling_window(seqs)`: every row gets the
+pattern matched against each of its own windows -/
+theorem fixedRegex_rowlocal (pat : List Elem) (hp : 1 ≤ pat.length) (rows : List (List Nat)) :
+    fixedRegex pat rows = spec pat.length (matchFixed pat) rows := by
+  unfold fixedRegex
+  rw [rolling_rowlocal pat.length hp]
+  have : fixedMatch pat = matchFixed pat := funext (expandClasses_sound pat)
+  rw [this]
+
+/-- `specSame` for booleans, position by position: "the window fits in the row and matches" -/
+theorem specSame_pointwise (w : Nat) (hw : 1 ≤ w) (f : List Nat → Bool) (rows : List (List Nat)) :
+    specSame w f false rows =
+      rows.map (fun r => (List.range r.length).map (fun i => decide (i + w ≤ r.length) && f ((r.drop i).take w))) := by
+  unfold specSame
+  apply List.map_congr_left
+  intro r _
+  apply List.ext_getElem
+  · simp [windows]; omega
+  · intro i h1 h2
+    simp only [List.length_map, List.length_range] at h2
+    simp only [List.getElem_map, List.getElem_range]
+    rcases Nat.lt_or_ge i (r.length + 1 - w) with h | h
+    · rw [List.getElem_append_left (by simpa [windows] using h)]
+      simp only [windows, List.getElem_map, List.getElem_range]
+      have : decide (i + w ≤ r.length) = true := by simp; omega
+      simp [this]
+    · rw [List.getElem_append_right (by simpa [windows] using h)]
+      have : decide (i + w ≤ r.length) = false := by simp; omega
+      simp [this]
+
+theorem orRows_pointwise (rows : List (List Nat)) (g h : List Nat → Nat → Bool) :
+    orRows (rows.map (fun r => (List.range r.length).map (g r))) (rows.map (fun r => (List.range r.length).map (h r))) =
+      rows.map (fun r => (List.range r.length).map (fun i => g r i || h r i)) := by
+  unfold orRows
+  induction rows with
+  | nil => rfl
+  | cons r rs ih =>
+    simp only [List.map_cons, List.zipWith_cons_cons, ih, List.cons.injEq, and_true]
+    apply List.ext_getElem <;> simp
+
+theorem foldl_orRows {γ : Type} (rows : List (List Nat)) (alts : List γ) (G : γ → List Nat → Nat → Bool)
+    (F : γ → List (List Bool)) (hF : ∀ a ∈ alts, F a = rows.map (fun r => (List.range r.length).map (G a r)))
+    (H : List Nat → Nat → Bool) :
+    alts.foldl (fun out a => orRows out (F a)) (rows.map (fun r => (List.range r.length).map (H r))) =
+      rows.map (fun r => (List.range r.length).map (fun i => H r i || alts.any (fun a => G a r i))) := by
+  induction alts generalizing H with
+  | nil => simp
+  | cons a as ih =>
+    simp only [List.foldl_cons]
+    rw [hF a (by simp), orRows_pointwise, ih (fun b hb => hF b (by simp [hb]))]
+    apply List.map_congr_left
+    intro r _
+    apply List.map_congr_left
+    intro i _
+    simp [Bool.or_assoc]
+
+/-- **C13.regex_rowlocal** — `RegexMatcher(...).rolling_window(seqs)`: position `i` of a row is marked
+iff some expansion of the pattern (gaps unrolled) FITS IN THE ROW at `i` and matches there; no match
+continues into the next row. (Every expansion has at least one position.) -/
+theorem regex_rowlocal (items : List Item) (hlen : ∀ p ∈ expandGaps items, 1 ≤ p.length) (rows : List (List Nat)) :
+    regexMatch items rows = specRegex items rows := by
+  unfold regexMatch regexWith specRegex
+  simp only
+  have hinit : rows.map (fun r => List.replicate r.length false) =
+      rows.map (fun r => (List.range r.length).map (fun _ => false)) := by
+    apply List.map_congr_left
+    intro r _
+    apply List.ext_getElem <;> simp
+  rw [hinit]
+  rw [foldl_orRows rows _ (fun alt r i => decide (i + alt.length ≤ r.length) && maskedMatch alt ((r.drop i).take alt.length))
+    _ ?_ (fun _ _ => false)]
+  · apply List.map_congr_left
+    intro r _
+    apply List.map_congr_left
+    intro i _
+    simp only [Bool.false_or, List.any_flatMap]
+    apply any_congr_mem
+    intro p hp
+    -- all alternatives of one expansion have its length
+    have hl := expandClasses_length p
+    have : (expandClasses p).any (fun alt => decide (i + alt.length ≤ r.length) && maskedMatch alt ((r.drop i).take alt.length)) =
+        (expandClasses p).any (fun alt => decide (i + p.length ≤ r.length) && maskedMatch alt ((r.drop i).take p.length)) := by
+      apply any_congr_mem
+      intro alt halt
+      rw [hl alt halt]
+    rw [this]
+    have h2 : (expandClasses p).any (fun alt => decide (i + p.length ≤ r.length) && maskedMatch alt ((r.drop i).take p.length)) =
+        (decide (i + p.length ≤ r.length) && fixedMatch p ((r.drop i).take p.length)) := by
+      unfold fixedMatch
+      cases decide (i + p.length ≤ r.length) <;> simp
+    rw [h2, expandClasses_sound]
+  · intro alt halt
+    obtain ⟨p, hp, hap⟩ := List.mem_flatMap.mp halt
+    have hw : 1 ≤ alt.length := by rw [expandClasses_length p alt hap]; exact hlen p hp
+    have := rolling_same alt.length hw (maskedMatch alt) false
+      (List.replicate (rows.flatten.length - (rows.flatten.length + 1 - alt.length)) false) rows
+      (by rw [List.length_append, windows_length, List.length_replicate]; omega)
+    unfold rollingSame at this
+    rw [this, specSame_pointwise alt.length hw]
+
+theorem expandGaps_length_pos (items : List Item) (h : ∃ e, Item.elem e ∈ items) :
+    ∀ p ∈ expandGaps items, 1 ≤ p.length := by
+  induction items with
+  | nil => obtain ⟨e, he⟩ := h; simp at he
+  | cons it rest ih =>
+    intro p hp
+    cases it with
+    | elem e =>
+      simp only [expandGaps, List.mem_map] at hp
+      obtain ⟨q, _, rfl⟩ := hp
+      simp
+    | gap a b =>
+      simp only [expandGaps, List.mem_flatMap, List.mem_map] at hp
+      obtain ⟨d, _, q, hq, rfl⟩ := hp
+      have hrest : ∃ e, Item.elem e ∈ rest := by
+        obtain ⟨e, he⟩ := h
+        simp only [List.mem_cons] at he
+        rcases he with he | he
+        · cases he
+        · exact ⟨e, he⟩
+      have := ih hrest q hq
+      simp; omega
+
+/-- **C13.regex_rowlocal_of_elem** — the same with the hypothesis read off the pattern: it has at least one
+position that is not a gap (the pattern grammar of the code requires two) -/
+theorem regex_rowlocal_of_elem (items : List Item) (h : ∃ e, Item.elem e ∈ items) (rows : List (List Nat)) :
+    regexMatch items rows = specRegex items rows :=
+  regex_rowlocal items (expandGaps_length_pos items h) rows
+
+/-- the shipped `RegexMatcher` let a match run into the NEXT row: `CG` "found" at the end of `AC`
+because the following row starts with `G`. Recorded refutation. -/
+theorem regexOld_leaks :
+    regexMatchOld [.elem (.oneOf [1]), .elem (.oneOf [2])] [[0, 1], [2, 3]] = [[false, true], [false, false]] ∧
+    specRegex [.elem (.oneOf [1]), .elem (.oneOf [2])] [[0, 1], [2, 3]] = [[false, false], [false, false]] := by
+  decide
 
 /-! ### k-mer code -/
 
@@ -244,6 +488,34 @@ theorem kmer_render (alphabet : List Nat) (letters : List Nat) (hl : ∀ x ∈ l
   · intro i h1 h2
     simp only [List.getElem_map, List.getElem_range, Function.comp]
     rw [digit_hashLE alphabet.length letters hl i (by simpa using h1)]
+
+theorem mul_sum_map (n : Nat) (l : List Nat) (g : Nat → Nat) : n * (l.map g).sum = (l.map (fun i => n * g i)).sum := by
+  induction l with
+  | nil => rfl
+  | cons a as ih => simp [List.sum_cons, Nat.mul_add, ih]
+
+/-- `hashLE` IS positional notation: the sum of `letter_i * n^i` -/
+theorem hashLE_eq_sum (n : Nat) (letters : List Nat) :
+    hashLE n letters = ((List.range letters.length).map (fun i => letters.getD i 0 * n ^ i)).sum := by
+  induction letters with
+  | nil => rfl
+  | cons x xs ih =>
+    rw [List.length_cons, List.range_succ_eq_map, List.map_cons, List.sum_cons, List.map_map]
+    simp only [hashLE, ih, List.getD_cons_zero, Nat.pow_zero, Nat.mul_one, Function.comp_def,
+      List.getD_cons_succ, Nat.pow_succ]
+    congr 1
+    rw [mul_sum_map]
+    congr 1
+    apply List.map_congr_left
+    intro i _
+    rw [Nat.mul_comm n, Nat.mul_assoc]
+
+/-- different windows of the same length have different codes -/
+theorem hashLE_inj (n : Nat) (a b : List Nat) (hlen : a.length = b.length) (ha : ∀ x ∈ a, x < n) (hb : ∀ x ∈ b, x < n)
+    (h : hashLE n a = hashLE n b) : a = b := by
+  apply List.ext_getElem hlen
+  intro i h1 h2
+  rw [← digit_hashLE n a ha i h1, ← digit_hashLE n b hb i h2, h]
 
 /-- the code the implementation computes for a window renders back to the window's text -/
 theorem kmerHash_render (alphabet : List Nat) (letters : List Nat) (hl : ∀ x ∈ letters, x < alphabet.length)
@@ -397,6 +669,56 @@ theorem minimizer (n k w : Nat) (hk : 1 ≤ k) (hkw : k ≤ w) (rows : List (Lis
     simp at this
     omega
 
+theorem mapM_none_of_mem {γ δ : Type} (f : γ → Option δ) (l : List γ) (x : γ) (hx : x ∈ l) (hf : f x = none) :
+    l.mapM f = none := by
+  induction l with
+  | nil => simp at hx
+  | cons a as ih =>
+    rw [List.mapM_cons]
+    rcases List.mem_cons.mp hx with e | e
+    · subst e; simp [hf]
+    · cases f a with
+      | none => rfl
+      | some b => simp [ih e]
+
+/-- **C13.minimizers_isSome_iff** — completeness: the nested computation fails (numpy raises on an empty
+axis) exactly when the k-mer is longer than the window while at least one window exists -/
+theorem minimizers_isSome_iff (n k w : Nat) (hk : 1 ≤ k) (hw : 1 ≤ w) (rows : List (List Nat)) :
+    (minimizers n k w rows).isSome ↔ (k ≤ w ∨ rows.flatten.length < w) := by
+  constructor
+  · intro h
+    rcases Nat.lt_or_ge w k with hlt | hge
+    · right
+      rcases Nat.lt_or_ge rows.flatten.length w with h' | h'
+      · exact h'
+      · exfalso
+        unfold minimizers minimizersWith at h
+        simp only at h
+        rw [rolling_rowlocal_extra k hk] at h
+        have hmem : ((rows.flatten.drop 0).take w) ∈ windows w id rows.flatten := by
+          unfold windows
+          simp only [List.mem_map, List.mem_range, id]
+          exact ⟨0, by omega, rfl⟩
+        have hnil : windows k (kmerHash n) ((rows.flatten.drop 0).take w) = [] := by
+          rw [windows_eq_nil_iff k hk]; simp; omega
+        have : (spec k (kmerHash n) (windows w id rows.flatten)).mapM minInt = none := by
+          apply mapM_none_of_mem minInt _ (windows k (kmerHash n) ((rows.flatten.drop 0).take w))
+          · exact List.mem_map.mpr ⟨_, hmem, rfl⟩
+          · rw [hnil]; rfl
+        simp [this] at h
+    · left; exact hge
+  · intro h
+    rcases h with hkw | hshort
+    · have := minimizer n k w hk hkw rows
+      cases hm : minimizers n k w rows with
+      | none => rw [hm] at this; simp at this
+      | some v => rfl
+    · unfold minimizers minimizersWith
+      simp only
+      have : windows w id rows.flatten = [] := (windows_eq_nil_iff w hw id _).mpr hshort
+      rw [this]
+      simp [rollingWith, rewrapSlice, windows]
+
 /-- **C13.match** — `match_string` marks, in every row, exactly the positions where the pattern
 occurs inside that row -/
 theorem «match» (pat : List Nat) (hp : 1 ≤ pat.length) (rows : List (List Nat)) :
@@ -444,6 +766,34 @@ theorem count_labeled (alphabet : List Nat) (k : Nat) (hk : 1 ≤ k)
   rw [kmers_dispatch alphabet.length k hk hr rows hl]
   subst hkl
   exact ⟨label_of_code alphabet kmer hkm, bincount_getElem? _ _ _ (hashLE_lt _ _ hkm)⟩
+
+theorem bincount_append (size : Nat) (a b : List Int) :
+    bincount size (a ++ b) = addCounts (bincount size a) (bincount size b) := by
+  unfold bincount addCounts
+  apply List.ext_getElem
+  · simp
+  · intro i h1 h2
+    simp [List.filter_append]
+
+/-- **C13.count_chunks** — counting is additive over chunks of sequences: `count_kmers` of a collection
+split anywhere between two rows is the sum (`EncodedCounts.__add__`, `sum` in the streamed form) of
+the counts of the parts; in particular no k-mer is gained or lost at a chunk border -/
+theorem count_chunks (n k : Nat) (hk : 1 ≤ k) (rows1 rows2 : List (List Nat)) :
+    countKmers n k (rows1 ++ rows2) = addCounts (countKmers n k rows1) (countKmers n k rows2) := by
+  unfold countKmers
+  rw [kmers_rowlocal n k hk, kmers_rowlocal n k hk, kmers_rowlocal n k hk]
+  simp only [spec, List.map_append, List.flatten_append]
+  exact bincount_append _ _ _
+
+/-- **C13.kmer_inverse** — `KmerEncoder.inverse` gives back the letters of the window -/
+theorem kmer_inverse (n : Nat) (letters : List Nat) (hl : ∀ x ∈ letters, x < n) :
+    kmerInverse n letters.length (hashLE n letters) = letters := by
+  unfold kmerInverse kmerDigits
+  apply List.ext_getElem
+  · simp
+  · intro i h1 h2
+    simp only [List.getElem_map, List.getElem_range]
+    exact digit_hashLE n letters hl i (by simpa using h1)
 
 /-- the shipped code counted nothing at `k = 1` -/
 theorem countOld_k1_unsound : countKmersOld 4 1 [[0, 1], [1]] = [0, 0, 0, 0] ∧
@@ -540,10 +890,24 @@ theorem motif_scores (m : List (List β)) (hm : 1 ≤ m.length) (rows : List (Li
   exact rewrapSlice_windows m.length hm _ (endLen_trimNew m.length hm) _ rows extra
 end pwm
 
+section pwm2
+variable (add : β → β → β) (zero : β)
+/-- **C13.motif_scores_rolling** — the older entry (`get_motif_scores_old`, `PositionWeightMatrix.rolling_window`)
+scores every row's own windows too -/
+theorem motif_scores_rolling (m : List (List β)) (hm : 1 ≤ m.length) (rows : List (List Nat)) :
+    motifScoresRolling add zero m rows = specMotifScores add zero m rows :=
+  rolling_rowlocal m.length hm _ rows
+end pwm2
+
 /-! ### non-vacuity -/
 example : rolling 2 (fun (w : List Nat) => w) [[1, 2, 3], [], [4], [5, 6]] = [[[1, 2], [2, 3]], [], [], [[5, 6]]] := by decide
 example : rollingSame 2 (fun (win : List Nat) => win == [1, 2]) false [false] [[0, 1, 2], [1], [1, 2]] =
     [[false, true, false], [false], [true, false]] := by decide
+example : expandGaps [.elem (.oneOf [0]), .gap 0 1, .elem (.oneOf [2, 3])] =
+    [[.oneOf [0], .oneOf [2, 3]], [.oneOf [0], .any, .oneOf [2, 3]]] := by decide
+example : regexMatch [.elem (.oneOf [0]), .gap 0 1, .elem (.oneOf [2, 3])] [[0, 1, 2], [0], [3, 0, 3]] =
+    [[true, false, false], [false], [false, true, false]] := by decide
+example : fixedRegex [.oneOf [0, 2], .any, .oneOf [3]] [[0, 1, 3, 3], [2, 3]] = [[true, false], []] := by decide
 example : getKmers 4 1 [[0, 3], [2]] = [[0, 3], [2]] := by decide +kernel
 example : getKmersOld 4 1 [[0, 3], [2]] = [[], []] := by decide +kernel
 example : getKmersPacked 2 [[0, 1, 2, 3], [3], [1, 0]] = [[4, 9, 14], [], [1]] := by decide +kernel
